@@ -1,12 +1,210 @@
-import Dashu.Props.GenRound
-import Dashu.Model.Float.Spec
+import Dashu.Proofs.Float.FBigOps
 /-
-  C10 — placeholder while the correspondence is brought up (replaced below by the property theorems).
+  C10 — Rounding to integers or to fewer digits picks the mathematically right neighbour; the two
+  public rounding primitives follow the six mode definitions.
+
+  Property theorems only (lemmas live in `Dashu/Proofs/Float`).  Every statement quantifies over all
+  bases `B ≥ 2`, all integers, all digit counts / precisions and all six modes; nothing is bounded.
+
+  Vocabulary (from `Props/GenRound.lean`, where the six REGENERATED `round_low_part` tables are
+  proved): for an exact value `N / d` (`d > 0`) the relational specifications `IsFloor N d r`,
+  `IsCeil`, `IsTowardZero`, `IsAwayFromZero`, `IsNearestEven`, `IsNearestAway` (integer-scaled);
+  `ModeSpec m N d r` selects the one belonging to mode `m`.
+  Estimate oracles: `c : Coarse` (the `f32` test in `round_fract`) with `CoarseSound c`;
+  `dub` (`Repr::digits_ub`) with `DubSound B dub`.  The theorems hold for every such oracle.
+  The model mirrors /repo including the `fix:` commit f9ab1b6 (`split_at_point_internal` reports
+  `-exponent` fraction digits on the smaller-than-one path; before it `0.0099` at 2 digits rounded to 1).
 -/
 namespace Dashu.Props.C10
-open Dashu.Model.Float
+open Dashu Dashu.Model.Float Dashu.Props.GenRound
 
-theorem rInt_eq_adj (r : Dashu.Rounding) : rInt r = Dashu.Props.GenRound.adj r := by
-  cases r <;> rfl
+/-! ### the two public rounding primitives -/
+
+/-- `Round::round_fract::<B>(n, f, k)` for every mode: `n + adjustment` is the neighbour of
+    `n + f / B^k` named by the mode, for every `|f| < B^k` (including `f = 0`). -/
+theorem round_fract_follows_mode (B : Nat) (hB : 2 ≤ B) (m : Mode) (c : Coarse) (hc : CoarseSound c)
+    (n f : Int) (k : Nat) (hlt : |f| < ((B ^ k : Nat) : Int)) :
+    ModeSpec m (n * ((B ^ k : Nat) : Int) + f) ((B ^ k : Nat) : Int) (n + rInt (roundFract B m c n f k)) :=
+  roundFract_spec' B hB m c hc n f k hlt
+
+/-- the coarse `f32` comparison cannot change the result as long as it is sound -/
+theorem round_fract_estimate_irrelevant (B : Nat) (m : Mode) (c : Coarse) (hc : CoarseSound c)
+    (n f : Int) (k : Nat) : roundFract B m c n f k = roundFract B m coarseNone n f k := by
+  by_cases hf : f = 0
+  · subst hf; simp [roundFract_zero]
+  · rw [roundFract_eq B m c hc n f k hf, roundFract_eq B m coarseNone (by intro _ _ _ _ h; cases h) n f k hf]
+
+/-- `Round::round_ratio(n, num, den)` for every mode, `den ≠ 0` of either sign, `0 < |num| < |den|`:
+    `n + adjustment` is the neighbour of `n + num / den` named by the mode. -/
+theorem round_ratio_follows_mode (m : Mode) (n num den : Int) (hden : den ≠ 0) (hnum : num ≠ 0)
+    (hlt : |num| < |den|) :
+    ModeSpec m (n * |den| + num * Int.sign den) |den| (n + rInt (roundRatio m n num den)) :=
+  roundRatio_spec m n num den hden hnum hlt
+
+theorem round_ratio_zero (m : Mode) (n den : Int) : roundRatio m n 0 den = .NoOp := roundRatio_zero m n den
+
+/-- an `AddOne` / `SubOne` / `NoOp` flag tells the truth about the side of the result: the integer-scaled
+    contract (error `< 1` unit, `≤ 1/2` for the nearest modes, mode side condition, flag side). -/
+theorem round_fract_contract (B : Nat) (hB : 2 ≤ B) (m : Mode) (c : Coarse) (hc : CoarseSound c)
+    (n f : Int) (k : Nat) (hf : f ≠ 0) (hlt : |f| < ((B ^ k : Nat) : Int)) :
+    IContract m ((B ^ k : Nat) : Int) (n * ((B ^ k : Nat) : Int) + f)
+      ((n + rInt (roundFract B m c n f k)) * ((B ^ k : Nat) : Int)) (some (roundFract B m c n f k)) := by
+  have hD : (0 : Int) < ((B ^ k : Nat) : Int) := by
+    have : 0 < B ^ k := Nat.pow_pos (by omega)
+    exact_mod_cast this
+  exact icontract_of_spec m n f _ hD hf hlt _ (roundFract_spec B (by omega) m c hc n f k hf hlt)
+
+/-! ### digit utilities -/
+
+/-- `utils::digit_len`: `B^(k-1) ≤ n < B^k` -/
+theorem digit_len_spec (B : Nat) (hB : 2 ≤ B) (n : Nat) (hn : 0 < n) :
+    0 < digits B n ∧ B ^ (digits B n - 1) ≤ n ∧ n < B ^ (digits B n) := digits_spec B hB n hn
+
+/-- `utils::split_digits` / `split_digits_ref`: the base-10 two-step path, the power-of-two bit path
+    and the generic path all return the truncating quotient and remainder by `B^pos` -/
+theorem split_digits_all_paths (B : Nat) (v : Int) (pos : Nat) :
+    splitDigits B v pos = (Int.tdiv v ((B ^ pos : Nat) : Int), Int.tmod v ((B ^ pos : Nat) : Int)) :=
+  splitDigits_eq B v pos
+
+/-- `Repr::new` keeps the value and leaves a significand that is zero or not divisible by the base -/
+theorem repr_new_value_normalized (B : Nat) (hB : 2 ≤ B) (s e : Int) :
+    (FRepr.new B s e).toRat B = (s : ℚ) * bpowQ B e ∧ Normalized B (FRepr.new B s e) :=
+  ⟨FRepr.new_value B (by omega) s e, FRepr.new_normalized B hB s e⟩
+
+/-! ### rounding to fewer digits -/
+
+/-- `Context::repr_round` / `repr_round_ref` honour the rounding contract (over `Rat`) -/
+theorem repr_round_contract (B : Nat) (hB : 2 ≤ B) (m : Mode) (c : Coarse) (hc : CoarseSound c)
+    (p : Nat) (hp : 1 ≤ p) (r : FRepr) (hn : Normalized B r) :
+    Contract B m p (r.toRat B) ((reprRound B m c p r).1.toRat B) (reprRound B m c p r).2 :=
+  reprRound_contract B hB m c hc p hp r hn
+
+/-- `FBig::with_precision(p)`: contract at the new precision; the precision field is `p` -/
+theorem with_precision_contract (B : Nat) (hB : 2 ≤ B) (m : Mode) (c : Coarse) (hc : CoarseSound c)
+    (x : FBigM) (hn : Normalized B x.repr) (p : Nat) (hp : 1 ≤ p) :
+    Contract B m p (x.repr.toRat B) ((fWithPrecision B m c x p).1.repr.toRat B) (fWithPrecision B m c x p).2 ∧
+    (fWithPrecision B m c x p).1.prec = p := by
+  unfold fWithPrecision
+  by_cases h : x.prec > p
+  · simp only [h, if_true, and_true]
+    exact reprRound_contract B hB m c hc p hp x.repr hn
+  · simp only [h, if_false, and_true]
+    exact contract_exact B m p _
+
+/-- `with_precision(0)` (unlimited) and a precision that is not smaller keep the value, `Exact` -/
+theorem with_precision_widen (B : Nat) (m : Mode) (c : Coarse) (x : FBigM) (p : Nat) (h : p = 0 ∨ x.prec ≤ p) :
+    fWithPrecision B m c x p = (⟨x.repr, p⟩, none) := by
+  unfold fWithPrecision
+  rcases h with h | h
+  · subst h
+    by_cases h0 : x.prec > 0
+    · simp [h0, reprRound_unlimited]
+    · simp [h0]
+  · have : ¬ x.prec > p := by omega
+    simp [this]
+
+/-! ### rounding to integers (`x = s / D`, `D = B^(-exp)`, `exp < 0`) -/
+
+section
+variable (B : Nat) (hB : 2 ≤ B) (c : Coarse) (hc : CoarseSound c) (dub : Int → Nat) (hdub : DubSound B dub)
+  (x : FBigM) (he : x.repr.exp < 0)
+include hB hdub he
+
+theorem trunc_correct :
+    ∃ t : Int, (fTrunc B dub x).repr.toRat B = (t : ℚ) ∧ IsTowardZero x.repr.signif (pointUnit B x.repr) t :=
+  fTrunc_spec B hB dub hdub x he
+
+include hc
+
+theorem floor_correct :
+    ∃ t : Int, (fFloor B c dub x).repr.toRat B = (t : ℚ) ∧ IsFloor x.repr.signif (pointUnit B x.repr) t :=
+  fFloor_spec B hB c hc dub hdub x he
+
+theorem ceil_correct (hs0 : x.repr.signif ≠ 0) :
+    ∃ t : Int, (fCeil B c dub x).repr.toRat B = (t : ℚ) ∧ IsCeil x.repr.signif (pointUnit B x.repr) t :=
+  fCeil_spec B hB c hc dub hdub x he hs0
+
+/-- `FBig::round`: nearest integer, ties away from zero -/
+theorem round_correct :
+    ∃ t : Int, (fRound B c dub x).repr.toRat B = (t : ℚ) ∧
+      IsNearestAway x.repr.signif (pointUnit B x.repr) t :=
+  fRound_spec B hB c hc dub hdub x he
+
+/-- `FBig::to_int` (mode of the type): the integer named by the mode, flagged `Inexact` -/
+theorem to_int_correct (m : Mode) :
+    ModeSpec m x.repr.signif (pointUnit B x.repr) (fToInt B m c dub x).1 ∧
+    (fToInt B m c dub x).2 ≠ none :=
+  fToInt_spec B hB c hc dub hdub x he m
+
+end
+
+/-- the value of `x` is `s / D` -/
+theorem value_is_s_over_D (B : Nat) (hB : 2 ≤ B) (r : FRepr) (he : r.exp < 0) :
+    r.toRat B * (pointUnit B r : ℚ) = (r.signif : ℚ) := toRat_neg_exp B hB r he
+
+/-- floats without fractional digits (`exp ≥ 0`) are returned unchanged by trunc/floor/ceil/round and
+    converted exactly by `to_int` -/
+theorem integral_unchanged (B : Nat) (m : Mode) (c : Coarse) (dub : Int → Nat) (x : FBigM)
+    (he : 0 ≤ x.repr.exp) :
+    fTrunc B dub x = x ∧ fFloor B c dub x = x ∧ fCeil B c dub x = x ∧ fRound B c dub x = x ∧
+    fToInt B m c dub x = (x.repr.signif * ((B ^ x.repr.exp.toNat : Nat) : Int), none) ∧
+    x.repr.toRat B = ((x.repr.signif * ((B ^ x.repr.exp.toNat : Nat) : Int) : Int) : ℚ) := by
+  have h : x.repr.exp ≥ 0 := he
+  refine ⟨by simp [fTrunc, h], by simp [fFloor, h], by simp [fCeil, h], by simp [fRound, h],
+    fToInt_int B m c dub x he, int_value B x.repr he⟩
+
+/-- `Repr::to_int`: toward zero, always flagged `Inexact(NoOp)` when fractional digits exist -/
+theorem repr_to_int_correct (B : Nat) (hB : 2 ≤ B) (dub : Int → Nat) (hdub : DubSound B dub) (r : FRepr)
+    (he : r.exp < 0) :
+    IsTowardZero r.signif (pointUnit B r) (reprToInt B dub r).1 ∧ (reprToInt B dub r).2 = some .NoOp :=
+  reprToInt_spec B hB dub hdub r he
+
+/-- `trunc(x) + fract(x) = x` -/
+theorem trunc_add_fract_eq (B : Nat) (hB : 2 ≤ B) (dub : Int → Nat) (x : FBigM) :
+    (fTrunc B dub x).repr.toRat B + (fFract B dub x).repr.toRat B = x.repr.toRat B :=
+  trunc_add_fract B hB dub x
+
+/-- `split_at_point() = (trunc(), fract())` -/
+theorem split_at_point_eq (B : Nat) (dub : Int → Nat) (x : FBigM) :
+    fSplitAtPoint B dub x = (fTrunc B dub x, fFract B dub x) := fSplit_eq B dub x
+
+/-- regression of the repaired defect: `0.0099` (99·10⁻⁴) at precision 2 rounds to 0 (`round()`, and
+    `to_int()` in mode HalfAway), and 1 — what the code returned before f9ab1b6 — is not a nearest integer -/
+theorem round_small_regression :
+    fRound 10 coarseNone (digitsI 10) ⟨⟨99, -4⟩, 2⟩ = ⟨⟨0, 0⟩, 0⟩ ∧
+    fToInt 10 .halfAway coarseNone (digitsI 10) ⟨⟨99, -4⟩, 2⟩ = (0, some .NoOp) ∧
+    ¬ IsNearestAway 99 10000 1 := by
+  refine ⟨by decide +kernel, by decide +kernel, ?_⟩
+  unfold IsNearestAway
+  norm_num
+
+/-! ### rationals (`rational/src/round.rs`, `num / den`, `den > 0`) -/
+
+theorem rbig_trunc_correct (num : Int) (den : Nat) (hden : 0 < den) : IsTowardZero num den (qTrunc num den) :=
+  qTrunc_spec num den hden
+theorem rbig_floor_correct (num : Int) (den : Nat) (hden : 0 < den) : IsFloor num den (qFloor num den) :=
+  qFloor_spec num den hden
+theorem rbig_ceil_correct (num : Int) (den : Nat) (hden : 0 < den) : IsCeil num den (qCeil num den) :=
+  qCeil_spec num den hden
+theorem rbig_round_correct (num : Int) (den : Nat) (hden : 0 < den) : IsNearestAway num den (qRound num den) :=
+  qRound_spec num den hden
+/-- `trunc + fract = x`: `num = trunc · den + fract_numerator` (the fraction keeps the denominator) -/
+theorem rbig_trunc_add_fract (num : Int) (den : Nat) :
+    num = qTrunc num den * (den : Int) + qFractNum num den := q_trunc_add_fract num den
+
+/-! ### non-vacuity -/
+
+-- the trivial oracles meet the enclosure hypotheses
+example : CoarseSound coarseNone := by intro _ _ _ _ h; cases h
+example (B : Nat) : DubSound B (digitsI B) := fun _ => le_refl _
+-- a half-way case at one digit: 2.5 in base 10 (n = 2, f = 5, k = 1): HalfEven stays, HalfAway goes up
+example : roundFract 10 .halfEven coarseNone 2 5 1 = .NoOp ∧ roundFract 10 .halfAway coarseNone 2 5 1 = .AddOne ∧
+    roundFract 10 .halfEven coarseNone 3 5 1 = .AddOne ∧ roundFract 10 .zero coarseNone (-2) 5 1 = .AddOne := by
+  decide +kernel
+-- repr_round of 12345·10⁻² to 3 digits, HalfAway: 123|45 → 123, NoOp (a normalised 5-digit operand)
+example : Normalized 10 ⟨12345, -2⟩ ∧ reprRound 10 .halfAway coarseNone 3 ⟨12345, -2⟩ = (⟨123, 0⟩, some .NoOp) := by
+  refine ⟨by unfold Normalized; decide, by decide +kernel⟩
+-- a float below 1/B² with a short precision, the case of the property text
+example : smallerThanOne (digitsI 10) ⟨99, -4⟩ = true := by decide +kernel
 
 end Dashu.Props.C10
